@@ -87,9 +87,12 @@ def leaf(tid, kind):
     elif ch == 4:
         a = np.stack([(base + tid * 17) % 256, (base // 3 + tid * 29) % 256, (base // 7 + tid) % 256, np.full_like(base, 255)], axis=-1).astype("u1")
         a[(yy % 16 == 5) & (xx % 8 == 3), 3] = 128  # some semi-transparent pixels
+        a[60:64, 200:230, :3] = 0  # pure black, opaque and (next line) faint: defined pixels all the same
+        a[62:64, 200:230, 3] = 63
         a[und] = 0
     else:
         a = np.stack([(base + tid * 17) % 256, (base // 3 + tid * 29) % 256, (base // 7 + tid) % 256], axis=-1).astype("u1")
+        a[60:64, 200:230] = 0  # pure black
     return a
 
 
@@ -176,7 +179,9 @@ def serial_case(d, start, pop, kind, use_filter, part, check_range=False, prop_s
     def bad(clause, detail):
         part.violation("%s/%s" % (clause, kind), "%r: %s" % (cfg, detail), cfg)
 
-    root = os.path.join(d, "p")
+    # the command-line and format-guessing entries work in a directory whose PATH holds dots (a survey.v2/
+    # component): the tile format is guessed from the files, not from the directory names
+    root = os.path.join(d, "survey.v2", ".cache", "p") if entry in ("cli", "api-guess") else os.path.join(d, "p")
     shutil.rmtree(root, ignore_errors=True)
     pio = PyramidIO(root, default_format=fmt)
     side = 2**start
@@ -198,6 +203,18 @@ def serial_case(d, start, pop, kind, use_filter, part, check_range=False, prop_s
                 from toasty import cli
 
                 cli.entrypoint(["cascade", "--parallelism", "1", "--start", str(start), root])
+            elif entry == "api-guess":
+                cascade_images(PyramidIO(root), start, averaging_merger, parallel=1)
+            elif entry == "api-after-loader-options":
+                # an input image was loaded earlier in this process with every loader option away from its default
+                import argparse
+                from toasty.image import ImageLoader
+                from PIL import Image as PILImage
+
+                src = os.path.join(d, "input.png")
+                PILImage.fromarray(np.full((9, 7, 3), 70, dtype="u1")).save(src)
+                ImageLoader.create_from_args(argparse.Namespace(black_to_transparent=True, colorspace_processing="none", psd_single_layer=0, crop="1")).load_path(src)
+                cascade_images(pio, start, averaging_merger, parallel=1, tile_filter=tf)
             elif entry == "builder":
                 from toasty.builder import Builder
 
@@ -504,6 +521,9 @@ def build_jobs(tier, seed, kinds, check_range, e1_kinds):
         for pop in [(0, 5, 10, 15), (0, 1, 4, 5, 10), tuple(range(16))]:
             cases.append((2, pop, kind, False, "cli"))
             cases.append((2, pop, kind, False, "builder"))
+            cases.append((2, pop, kind, False, "api-guess"))
+            if KINDS[kind][0] == "png":
+                cases.append((2, pop, kind, False, "api-after-loader-options"))
     for kind in kinds:
         if KINDS[kind][2] in (0, 4) and KINDS[kind][1][0] == "f" or KINDS[kind][2] == 4:
             cases.append(("recascade", kind))
